@@ -123,8 +123,8 @@ End W.
 
 (* ---- one cache directory ---- *)
 
-(* Started in an absolute directory, whatever -d, -w, a magefiles directory, HOME and
-   MAGEFILE_CACHE (relative or absolute, or unset) are: the path mage stats, the path `go build -o`
+(* Started in an absolute directory, whatever -d, -w, a magefiles directory, HOME, TMPDIR and
+   MAGEFILE_CACHE (relative or absolute, unset or empty) are: the path mage stats, the path `go build -o`
    writes (go runs in the magefile directory) and the path that is exec'ed (in the -w directory)
    are one absolute path, beneath MAGEFILE_CACHE resolved against the start directory. *)
 Theorem C08_one_cache_dir : forall l name, p_abs (l_start l) = true ->
@@ -135,9 +135,16 @@ Theorem C08_one_cache_dir : forall l name, p_abs (l_start l) = true ->
 Proof. exact one_cache_dir. Qed.
 
 Theorem C08_one_cache_dir_indep : forall l l' name,
-  p_abs (l_start l) = true -> l_start l = l_start l' -> l_cache_env l = l_cache_env l' -> l_home l = l_home l' ->
+  p_abs (l_start l) = true -> l_start l = l_start l' -> l_cache_env l = l_cache_env l' -> l_home l = l_home l' -> l_tmp l = l_tmp l' ->
   build_path true l name = exec_path true l' name /\ stat_path true l name = stat_path true l' name.
 Proof. exact one_cache_dir_indep. Qed.
+
+(* the default directory: with MAGEFILE_CACHE unset or empty the binaries are in $HOME/.magefile,
+   whatever directory mage is started in and whatever -d, -w say *)
+Theorem C08_default_cache_dir : forall l, l_cache_env l = "" -> l_home l <> "" -> p_abs (parse_path (l_home l)) = true ->
+  cache_dir true l = clean (join2 (parse_path (l_home l)) (parse_path ".magefile")) /\
+  p_abs (cache_dir true l) = true.
+Proof. exact default_cache_dir. Qed.
 
 (* the tree before commit b55412e ([fixed = false]: no filepath.Abs): with -d/-w, and with a
    magefiles directory and no flag at all, the binary was built in one place and exec'ed in another *)
@@ -159,6 +166,7 @@ Print Assumptions C08_default_mode_always_compiles.
 Print Assumptions C08_hash_mode_reuses.
 Print Assumptions C08_one_cache_dir.
 Print Assumptions C08_one_cache_dir_indep.
+Print Assumptions C08_default_cache_dir.
 Print Assumptions C08_relative_cache_prefix_refuted.
 
 (* non-vacuity: a hash with the shape of a digest that is collision free on everything hashed
